@@ -21,16 +21,20 @@ func (ex *Exec) call(fr *Frame, in ssa.Instruction, c *ssa.CallCommon, st *State
 	for _, a := range c.Args {
 		args = append(args, ex.val(fr, a))
 	}
-	ex.callSiteAsserts(fr, in, c, st, pc, pos)
+	ex.callSiteAsserts(fr, in, c, st, pc, pos, "atcall")
+	var rv Val
+	var rpc *Term
 	if b, ok := c.Value.(*ssa.Builtin); ok {
-		return ex.builtin(fr, b, c, args, st, pc, pos)
-	}
-	if c.IsInvoke() {
+		rv, rpc = ex.builtin(fr, b, c, args, st, pc, pos)
+	} else if c.IsInvoke() {
 		recv := ex.asIface(ex.val(fr, c.Value))
-		return ex.invoke(fr, recv, c.Value.Type(), c.Method, args, st, pc, pos)
+		rv, rpc = ex.invoke(fr, recv, c.Value.Type(), c.Method, args, st, pc, pos)
+	} else {
+		fv := ex.val(fr, c.Value)
+		rv, rpc = ex.callValue(fr, fv, c.Value.Type(), args, st, pc, pos)
 	}
-	fv := ex.val(fr, c.Value)
-	return ex.callValue(fr, fv, c.Value.Type(), args, st, pc, pos)
+	ex.callSiteAsserts(fr, in, c, st, rpc, pos, "aftercall")
+	return rv, rpc
 }
 
 // callValue calls a function value.
@@ -164,6 +168,7 @@ func (ex *Exec) unknownCall(fr *Frame, name string, sig *types.Signature, args [
 		for _, t := range tys {
 			ex.havocReachable(st, t, seen, 0)
 		}
+		ex.havocDynamic(st, args, seen)
 	}
 	n := Fresh("now", SInt)
 	pc = And(pc, IntOp("<=", st.now, n))
@@ -176,6 +181,35 @@ func (ex *Exec) unknownCall(fr *Frame, name string, sig *types.Signature, args [
 		ex.pendingAssume = nil
 	}
 	return rv, pc
+}
+
+// havocDynamic: an argument passed as an interface whose dynamic type is known at the call site
+// (a boxed pointer, say) gives the callee access to everything reachable from that type.
+func (ex *Exec) havocDynamic(st *State, args []Val, seen map[string]bool) {
+	var tags func(t *Term, depth int)
+	tags = func(t *Term, depth int) {
+		if t == nil || depth > 4 {
+			return
+		}
+		if t.isLit() {
+			if dt, ok := ex.P.typeByKey[typeTagNames[t.val.Int64()]]; ok {
+				ex.havocReachable(st, dt, seen, 0)
+			}
+			return
+		}
+		if t.op == "ite" {
+			tags(t.args[1], depth+1)
+			tags(t.args[2], depth+1)
+		}
+	}
+	for _, a := range args {
+		switch v := a.(type) {
+		case *IfaceV:
+			tags(v.Tag, 0)
+		case *SliceV:
+			_ = v
+		}
+	}
 }
 
 func shortName(s string) string {
@@ -440,6 +474,7 @@ func (ex *Exec) applyContract(fr *Frame, name string, sig *types.Signature, ct *
 			for i := 0; i < sig.Params().Len(); i++ {
 				ex.havocReachable(st, sig.Params().At(i).Type(), seen, 0)
 			}
+			ex.havocDynamic(st, args, seen)
 			ex.assumes["frame of "+ct.Key+" unspecified: everything reachable from its arguments is havoc'd"] = true
 		} else {
 			envOld := *env
@@ -613,6 +648,7 @@ type Loc struct {
 	ref    *Term // nil: whole component (or a global scalar)
 	lo, hi *Term // element range (absolute indices) for elem components
 	global bool
+	whole  bool // the whole component (reach(x) in an assumed contract)
 }
 
 func (ex *Exec) evalLocs(e *SExpr, env *SpecEnv) []Loc {
@@ -687,9 +723,59 @@ func (ex *Exec) evalLocs(e *SExpr, env *SpecEnv) []Loc {
 				}
 				return out
 			}
+			if e.Args[0].Name == "reach" {
+				// reach(x): every component a callee could write given x (by its type; for an
+				// interface value whose dynamic type is known at the call site, by that type)
+				v, t := ex.evalSpec(e.Args[1], env)
+				var names []string
+				ex.collect = &names
+				seen := map[string]bool{}
+				if iv, ok := v.(*IfaceV); ok {
+					before := len(names)
+					ex.havocDynamic(nil, []Val{iv}, seen)
+					if len(names) == before {
+						ex.havocReachable(nil, t, seen, 0)
+					}
+				} else {
+					ex.havocReachable(nil, t, seen, 0)
+				}
+				ex.collect = nil
+				var out []Loc
+				for _, n := range names {
+					out = append(out, Loc{comp: n, sort: compSorts[n], whole: true})
+				}
+				return out
+			}
 			if e.Args[0].Name == "all" {
 				// all(x): the whole object x points to
 				bv, bt := ex.evalSpec(e.Args[1], env)
+				if iv, ok := bv.(*IfaceV); ok {
+					// an interface value: the object its dynamic type (known at the call site)
+					// points to; a pointer to a slice also gives access to the slice's elements
+					if iv.Tag.isLit() {
+						if dt, ok := ex.P.typeByKey[typeTagNames[iv.Tag.val.Int64()]]; ok {
+							if pt, ok := under(dt).(*types.Pointer); ok {
+								ref := unbox(dt, iv.Data).(*Term)
+								if sl, ok := under(pt.Elem()).(*types.Slice); ok && !aggregate(sl.Elem()) {
+									// a pointer to a slice: the slice's elements (the header is
+									// not written by the callees this is used for)
+									sv := ex.loadPtr(env.cur, pt.Elem(), ref).(*SliceV)
+									return ex.elemLocs(sl.Elem(), sv.Arr, sv.Off, BVOp("bvadd", sv.Off, sv.Len))
+								}
+								return ex.objLocs(pt.Elem(), ref)
+							}
+						}
+					}
+					var names []string
+					ex.collect = &names
+					ex.havocReachable(nil, bt, map[string]bool{}, 0)
+					ex.collect = nil
+					var out []Loc
+					for _, n := range names {
+						out = append(out, Loc{comp: n, sort: compSorts[n], whole: true})
+					}
+					return out
+				}
 				pt := under(bt).(*types.Pointer)
 				return ex.objLocs(pt.Elem(), bv.(*Term))
 			}
@@ -713,6 +799,20 @@ func (ex *Exec) fieldLocs(owner types.Type, i int, base *Term) []Loc {
 }
 
 func (ex *Exec) objLocs(t types.Type, ref *Term) []Loc {
+	// pointers into objects: a field or an element of another object
+	switch {
+	case ref.op == "ite":
+		return append(ex.objLocs(t, ref.args[1]), ex.objLocs(t, ref.args[2])...)
+	case ref.op == "app" && strings.HasPrefix(ref.name, "fld$"):
+		fi := fldTab[ref.name]
+		if !aggregate(t) {
+			return ex.fieldLocs(fi.owner, fi.idx, ref.args[0])
+		}
+	case ref.op == "app" && strings.HasPrefix(ref.name, "elem$"):
+		if !aggregate(t) {
+			return ex.elemLocs(elemTab[ref.name], ref.args[0], ref.args[1], BVOp("bvadd", ref.args[1], BVu(1, 64)))
+		}
+	}
 	switch u := under(t).(type) {
 	case *types.Struct:
 		var out []Loc
@@ -744,6 +844,10 @@ func (ex *Exec) elemLocs(et types.Type, arr, lo, hi *Term) []Loc {
 }
 
 func (ex *Exec) havocLoc(st *State, loc Loc) {
+	if loc.whole {
+		ex.havocComp(st, loc.comp)
+		return
+	}
 	if loc.global {
 		compSorts[loc.comp] = loc.sort
 		v := Fresh("H$"+loc.comp, loc.sort)
@@ -1118,7 +1222,9 @@ func calleeName(c *ssa.CallCommon) string {
 }
 
 // callSiteAsserts emits the `atcall` obligations of the enclosing function's contract.
-func (ex *Exec) callSiteAsserts(fr *Frame, in ssa.Instruction, c *ssa.CallCommon, st *State, pc *Term, pos token.Pos) {
+// With kind "aftercall" it applies the ghost updates `aftercall <callee> <n> g(key) == value`
+// (a ghost assignment in the caller's scope just after the call returns).
+func (ex *Exec) callSiteAsserts(fr *Frame, in ssa.Instruction, c *ssa.CallCommon, st *State, pc *Term, pos token.Pos, kind string) {
 	if fr.ct == nil || ex.discover {
 		return
 	}
@@ -1128,7 +1234,7 @@ func (ex *Exec) callSiteAsserts(fr *Frame, in ssa.Instruction, c *ssa.CallCommon
 	}
 	has := false
 	for _, cl := range fr.ct.Clauses {
-		if cl.Kind == "atcall" && cl.Callee == name {
+		if cl.Kind == kind && cl.Callee == name {
 			has = true
 		}
 	}
@@ -1172,7 +1278,7 @@ func (ex *Exec) callSiteAsserts(fr *Frame, in ssa.Instruction, c *ssa.CallCommon
 		}
 	}
 	for _, cl := range fr.ct.Clauses {
-		if cl.Kind != "atcall" || cl.Callee != name || cl.Loop != ord || cl.Expr == nil {
+		if cl.Kind != kind || cl.Callee != name || cl.Loop != ord || cl.Expr == nil {
 			continue
 		}
 		env := ex.localEnv(fr, in.Block(), st)
@@ -1187,6 +1293,28 @@ func (ex *Exec) callSiteAsserts(fr *Frame, in ssa.Instruction, c *ssa.CallCommon
 					panic(r)
 				}
 			}()
+			if kind == "aftercall" {
+				e := cl.Expr
+				if e.Op != "==" || len(e.Args) != 2 {
+					specFail("aftercall wants ghost(key) == value")
+				}
+				locs := ex.evalLocs(e.Args[0], env)
+				v, vt := ex.evalSpec(e.Args[1], env)
+				_ = vt
+				fs := flat(v)
+				if len(fs) != len(locs) {
+					specFail("aftercall: value shape does not match the ghost")
+				}
+				for i, l := range locs {
+					val := fs[i]
+					arr := ex.get(st, l.comp, l.sort)
+					if ArrSort(SRef, val.sort) != l.sort {
+						specFail("aftercall: sort mismatch %s vs %s", val.sort, l.sort)
+					}
+					ex.setAt(st, l.comp, Store(arr, l.ref, val), l.ref)
+				}
+				return
+			}
 			g := ex.evalBool(cl.Expr, env)
 			ex.addObl(fr, "atcall", pos, pc, g, fmt.Sprintf("before call %d of %s: %s", ord, name, cl.Src), cl.Tags, cl)
 		}()
